@@ -157,7 +157,6 @@ class Engine:
             out["probes"]["params_rejected"] = 1
             return None
         keep = []
-        deferred = []   # (generator requested earlier, its fresh result, ui)
 
         def norm(toks):
             return [(tuple(f[0] for f in t[0]), t[1], t[2]) for t in toks]
@@ -175,9 +174,14 @@ class Engine:
                 pat += [1] + [0] * min(p["init_max_silence"], 2)
             fresh = norm(StreamTokenizer(*args).tokenize(FrameSrc(pat, ui)))
             mode = u["mode"]
+            if mode == "gen_deferred":
+                # (a generator requested at one use and consumed after the
+                # next is two OVERLAPPING uses: whether the state is reset at
+                # the call or at the first next() is not fixed by "reused
+                # ... after"; the generator is consumed at once)
+                mode = "gen_full"
             if ui == len(sc["uses"]) - 1:
-                mode = "list" if mode.startswith("gen_partial") \
-                    or mode == "gen_deferred" else mode
+                mode = "list" if mode.startswith("gen_partial") else mode
             out["steps"] += 1
             src = FrameSrc(pat, ui)
             far = u.get("finalise_at_read", -1)
@@ -196,14 +200,6 @@ class Engine:
                         out["faults"].get(
                             "finalise_suspended_inside_read", 0) + 1
                 src = FrameSrc(pat, ui, hook_at=far, hook=_finalise_now)
-            if mode == "gen_deferred":
-                # the generator is requested now but consumed only after the
-                # next use of the tokenizer has completed
-                deferred.append((reused.tokenize(src, generator=True), fresh,
-                                 ui))
-                out["faults"]["deferred_generator"] = \
-                    out["faults"].get("deferred_generator", 0) + 1
-                continue
             if mode == "list":
                 got = norm(reused.tokenize(src))
                 want = fresh
@@ -270,22 +266,6 @@ class Engine:
                                     sc["uses"][:ui]]), "C20.1:tokenizer")
             if ui >= 1 and want:
                 out["nontrivial"] = True
-            # consume generators that were requested before this use; only
-            # when no other generator is suspended mid-stream (resuming one
-            # after reuse is outside the property)
-            if deferred and mode in ("list", "callback", "gen_full") \
-                    and not keep:
-                for g_, fresh_, ui_ in deferred:
-                    got_ = norm(list(g_))
-                    if got_ != fresh_:
-                        return self._V(
-                            "C20.1", "a generator requested at use %d and "
-                            "consumed after use %d (%s) delivered %r, a "
-                            "fresh tokenizer %r" % (
-                                ui_, ui, mode, [(t[1], t[2]) for t in got_],
-                                [(t[1], t[2]) for t in fresh_]),
-                            "C20.1:deferred_generator")
-                deferred = []
         return None
 
     # ---------------------------------------------------------------- split
@@ -357,7 +337,7 @@ class Engine:
                          **kw)
         want2 = key(do2())
         g1, g2, g3 = do(), do2(), do()   # g1 and g3: the same input object
-        gens = [g1, g2, g3]
+        gens = [iter(g1), iter(g2), iter(g3)]
         accs = [[], [], []]
         live = [True, True, True]
         turn = sc["nwin2"] % 3
@@ -427,7 +407,8 @@ class Engine:
             out["probes"]["recording_differs_from_served"] = 1
         fresh = key(split(AudioReader(rec, block_dur=sc["block_dur"], sr=sr,
                                       sw=sw, ch=ch), **kw))
-        if not partial and live != fresh:
+        complete = rec == src.served_bytes()
+        if not partial and complete and live != fresh:
             return self._V("C20.3", "live split %r differs from a split of "
                            "the recorded bytes %r" % (
                                [(a, b) for a, b, _ in live],
@@ -448,14 +429,27 @@ class Engine:
             reader.rewind()
             if reader.data != rec:
                 out["probes"]["recording_changed_by_partial_replay"] = 1
+        first = None
         for n in range(2):
             out["steps"] += 1
             again = key(split(reader, **kw))
             if again != fresh:
+                # how a replay is framed relative to a fresh reader over the
+                # same bytes is C19's business
+                out["probes"]["replay_differs_from_fresh_reader"] = 1
+            if first is None:
+                first = again
+                if not partial and complete and again != live:
+                    return self._V("C20.3", "split of the rewound recorder "
+                                   "gave %r, the live split %r" % (
+                                       [(a, b) for a, b, _ in again],
+                                       [(a, b) for a, b, _ in live]),
+                                   "C20.3:rewound_split")
+            elif again != first:
                 return self._V("C20.3", "split #%d of the rewound recorder "
-                               "gave %r, a fresh split of the recorded bytes "
-                               "%r" % (n + 2, [(a, b) for a, b, _ in again],
-                                       [(a, b) for a, b, _ in fresh]),
+                               "gave %r, split #2 %r" % (
+                                   n + 2, [(a, b) for a, b, _ in again],
+                                   [(a, b) for a, b, _ in first]),
                                "C20.3:rewound_split")
             reader.rewind()
         if src.reads != reads_before:
